@@ -397,6 +397,16 @@ def run_verus(path, rlimit, extra=()):
     return dict(cmd=" ".join(cmd), rc=p.returncode, json=out_json, diags=diags, other=other, wall=dt)
 
 
+KNOWN_WITNESS_PRINTED = set()
+
+
+def witness_defects(prop):
+    """listed known findings of the bounded kind for this property: {defect id: finding}"""
+    kf_path = os.path.join(VERIF, "known_findings.json")
+    kf_all = json.load(open(kf_path)) if os.path.exists(kf_path) else {}
+    return {k["witness_defect"]: k for k in kf_all.get("findings", []) if k.get("property") == prop and k.get("witness_defect")}
+
+
 def run_witness(meta, unit):
     """Bounded witness search against the REAL crate at VERIF_REPO (cargo build of /verif/witness with the
     falcon path dependency pointed at VERIF_REPO). Returns (list of disagreement dicts, summary dict | None, log)."""
@@ -445,7 +455,31 @@ def run_witness(meta, unit):
                     wit.append(j)
                 elif j.get("summary"):
                     summ = j
-        return wit, summ, note
+        # known findings of the bounded kind: a disagreement the enumerator itself classifies as an instance of a
+        # LISTED defect (field `known_defect`, set only when the observed result is exactly what the documented
+        # defective behaviour yields) is reported as KNOWN-FINDING; an unlisted tag, and every untagged disagreement,
+        # stays a violation
+        listed = witness_defects(meta.get("property"))
+        kept, seen = [], {}
+        for w in wit:
+            d = w.get("known_defect")
+            if d and d in listed:
+                seen.setdefault(d, []).append(w)
+            else:
+                kept.append(w)
+        for d, ws in sorted(seen.items()):
+            if d not in KNOWN_WITNESS_PRINTED:
+                KNOWN_WITNESS_PRINTED.add(d)
+                w0 = {k: v for k, v in ws[0].items() if k not in ("witness", "known_defect")}
+                print("KNOWN-FINDING: property=%s %s.bounded-witness.known.%s — %s (observed on this run, e.g. %s)" % (
+                    meta.get("property"), unit, d, listed[d].get("what", ""), json.dumps(w0)[:400]))
+        for d in sorted(set(listed) - set(seen)):
+            if d not in KNOWN_WITNESS_PRINTED and summ is not None:
+                KNOWN_WITNESS_PRINTED.add(d)
+                print("note: known finding %s.bounded-witness.known.%s was not observed on this run" % (unit, d))
+        if summ is not None:
+            summ = dict(summ, known_defect_instances={d: len(ws) for d, ws in seen.items()})
+        return kept, summ, note
     except Exception as e:  # noqa
         return [], None, "witness search error: %s" % e
     finally:
@@ -668,11 +702,12 @@ def main():
     bounded_info = None
     bounded_hits = []
     bsumm = None
-    if bounded.get("functions") or (meta.get("witness") and tier == "thorough"):
+    if bounded.get("functions") or (meta.get("witness") and (tier == "thorough" or witness_defects(prop))):
         changed = sorted(p_ for p_, h_ in bounded_hashes.items() if base_json.get("bounded_hashes", {}).get(p_) != h_)
         ran = False
         bw, bsumm, blog = [], None, "not run: bounded-only functions unchanged since the baseline (quick tier)"
-        if (changed or tier == "thorough") and os.environ.get("VERIF_NO_WITNESS") != "1" and not args.update_baseline:
+        listed_bounded = witness_defects(prop)  # their KNOWN-FINDING lines must come from an observation on this run
+        if (changed or tier == "thorough" or listed_bounded) and os.environ.get("VERIF_NO_WITNESS") != "1" and not args.update_baseline:
             bw, bsumm, blog = run_witness(meta, unit)
             ran = True
         bounded_info = dict(label="BOUNDED (never counted as proved)", statement=bounded.get("statement", "differential test of the public API against an executable transcription of the specification"),
